@@ -720,11 +720,8 @@ static int vi_motion(int *row, int *off)
 		*off = lbuf_indents(xb, *row);
 		break;
 	case '$':
-		if (cnt > 1) {		/* the end of the cnt-1'th line below */
-			if (*row + cnt - 1 >= lbuf_len(xb))
-				return -1;
-			*row += cnt - 1;
-		}
+		if (cnt > 1 && lbuf_len(xb))	/* the end of the cnt-1'th line below */
+			*row = MIN(*row + cnt - 1, lbuf_len(xb) - 1);
 		*off = lbuf_eol(xb, *row);
 		break;
 	case '|':
